@@ -12,6 +12,7 @@ import HT.Model.Path
 import HT.Model.Identity
 import HT.Model.Agent
 import HT.Model.Ipp
+import HT.Model.Proto
 /-!
 Line-protocol driver: one case per input line, `<model> <args…>`; one output line
 per case.  Core Lean only (so it links as an executable).
@@ -38,6 +39,7 @@ def dispatch (line : String) : String :=
   | "idtok" :: args => Id.driver args
   | "agent" :: args => Agent.driver args
   | "ipp" :: args => Ipp.driver args
+  | "seg" :: args => Proto.driver args
   | _ => "bad-model"
 
 partial def loop (h : IO.FS.Stream) (out : IO.FS.Stream) : IO Unit := do
